@@ -176,7 +176,7 @@ func c19Rhp4(r *Run) {
 				r.emit(true, "maxsize", "c19.maxsize", args, []string{"0", hx(uint64(len(enc))), hx(uint64(limit))})
 			}
 			// model: the receiver's verdict on this stream (first limit+8 bytes are all it can depend on)
-			if rec[ot.name] && (len(enc) < 100000 || delta == 0 && len(enc) < 3000000 && r.thorough()) {
+			if rec[ot.name] && (len(enc) < 100000 || delta == 0 && len(enc) < 300000 && r.thorough()) {
 				stream := append(append([]byte(nil), enc...), bytes.Repeat([]byte{0x5a}, 64)...)
 				verdict := "0"
 				var rpcErr *rhp4.RPCError
